@@ -569,9 +569,15 @@ def _set_value_in_attrset(
     if not segments:
         raise ValueError("NPath cannot be empty")
 
-    def _assign_through_identifier(identifier: Identifier) -> bool:
-        """Try to write via identifier resolution contexts instead of overwriting."""
-        scopes = scopes_for_owner(target_set)
+    def _assign_through_identifier(
+        identifier: Identifier, owner: AttributeSet | None = None
+    ) -> bool:
+        """Try to write via identifier resolution contexts instead of overwriting.
+
+        *owner* is the set that holds the binding (a nested set for dotted
+        paths); its own scope shadows the top-level target's.
+        """
+        scopes = scopes_for_owner(owner if owner is not None else target_set)
         if scopes:
             set_resolution_context(identifier, scopes)
             try:
@@ -641,7 +647,7 @@ def _set_value_in_attrset(
     existing_binding = _find_binding(parent_set, final_key)
     if existing_binding is not None:
         if isinstance(existing_binding.value, Identifier):
-            if _assign_through_identifier(existing_binding.value):
+            if _assign_through_identifier(existing_binding.value, parent_set):
                 return
             target_name = existing_binding.value.name
             if let_bindings:
